@@ -858,6 +858,9 @@ def classify(chk, known, req, resp, stream, stats, unknown):
 
 
 def replay(rp):
+    if rp.get("kind") == "cli":
+        cls, _, _ = real_binary(rp["argv"], rp.get("stdin", "").encode("utf-8", "surrogatepass"))
+        return cls in ("ok", "err")
     if rp.get("kind") != "eval":
         return False
     req = {"op": "c11", "expr_b64": rp["expr_b64"], "input_b64": rp["input_b64"], "in": rp.get("in", "yaml"), "out": rp.get("out", "yaml"),
@@ -886,7 +889,8 @@ def run(chk):
     stats, unknown = {}, []
 
     # ---- 1. recorded inputs of the reachable sites: harness and real binary
-    rec = [s for s in sites if s.get("status") == "reachable" and s.get("expr") is not None and not s.get("cli_heavy")]
+    # (sites with status "fixed" are replayed too: their inputs must keep answering with a result or an error)
+    rec = [s for s in sites if s.get("status") in ("reachable", "fixed") and s.get("expr") is not None and not s.get("cli_heavy")]
     rreqs = [mk_req(s["expr"], site_stdin(s), s.get("in", "yaml"), s.get("out", "yaml"), s.get("all", False),
                     deadline_ms=s.get("deadline_ms", 3000), mem_mb=s.get("mem_mb", 600)) for s in rec]
     rresp = c11_parallel(rreqs, shards=min(len(rreqs), 10) or 1)
@@ -896,8 +900,11 @@ def run(chk):
         chk.count(("recorded", skey, s["expr"], s.get("stdin", ""), s.get("stdin_b64")), nontrivial=True,
                   sample={"recorded": skey, "expr": s["expr"], "input": s.get("stdin", "")[:80], "outcome": c} if "key" in s else None)
         if c in ("ok", "err"):
-            # the recorded input no longer fails: not an alarm (a fix removes a finding)
-            chk.extra.setdefault("recorded_no_longer_failing", []).append(skey)
+            if s.get("status") == "fixed":
+                chk.extra["fixed_sites_still_fixed"] = chk.extra.get("fixed_sites_still_fixed", 0) + 1
+            else:
+                # the recorded input no longer fails: not an alarm (a fix removes a finding)
+                chk.extra.setdefault("recorded_no_longer_failing", []).append(skey)
             continue
         stats.setdefault("recorded", {}).setdefault(c, 0)
         stats["recorded"][c] += 1
@@ -906,7 +913,7 @@ def run(chk):
         else:
             classify(chk, known, req, r, "recorded", stats, unknown)
     # the same inputs on the real binary (exit status 2 + goroutine dump, or no answer)
-    cli = [s for s in sites if s.get("status") == "reachable" and s.get("argv") and "key" in s and (thorough or not s.get("cli_heavy"))]
+    cli = [s for s in sites if s.get("status") in ("reachable", "fixed") and s.get("argv") and "key" in s and (thorough or not s.get("cli_heavy"))]
 
     def real_one(s):
         stdin = site_stdin(s)
@@ -925,6 +932,11 @@ def run(chk):
         cls, frame, head = rr
         real_checked += 1
         chk.extra.setdefault("real_binary", {})[s["key"]] = cls + (" " + frame if frame else "")
+        if s.get("status") == "fixed":
+            if cls not in ("ok", "err"):
+                chk.violation({"kind": "cli", "argv": s["argv"], "stdin": s.get("stdin", ""), "site": s["key"], "observed": cls + " " + frame}, True,
+                              "the real binary fails again (%s) on the input of the fixed site %s" % (cls, s["key"]))
+            continue
         if cls in ("ok", "err"):
             if s.get("cli_only"):
                 chk.extra.setdefault("recorded_no_longer_failing", []).append(s["key"])
